@@ -262,15 +262,18 @@ pub fn check_doc(v: &RVal, acc: &mut Acc, ext: bool) {
             _ => acc.vio("array_values:some/none-wrong", ctxv),
         }
     }
-    // exists_all_keys / exists_any_keys: every subset of <= 3 candidate keys
+    // exists_all_keys / exists_any_keys: every LIST of <= 3 candidate keys (any order, with repetitions)
     let mut cands: Vec<Vec<u8>> = names_for(v).into_iter().take(6).map(|s| s.into_bytes()).collect();
     cands.push(vec![0xFF, 0x61]);
     let nc = cands.len();
-    for mask in 0u32..(1 << nc) {
-        if mask.count_ones() > 3 {
-            continue;
+    let nlists: usize = 1 + nc + nc * nc + nc * nc * nc;
+    for li in 0..nlists {
+        let (len, mut j) = if li < 1 { (0, 0) } else if li < 1 + nc { (1, li - 1) } else if li < 1 + nc + nc * nc { (2, li - 1 - nc) } else { (3, li - 1 - nc - nc * nc) };
+        let mut ks: Vec<Vec<u8>> = vec![];
+        for _ in 0..len {
+            ks.push(cands[j % nc].clone());
+            j /= nc;
         }
-        let ks: Vec<Vec<u8>> = (0..nc).filter(|i| mask & (1 << i) != 0).map(|i| cands[i].clone()).collect();
         if let Some(r) = g!("exists_keys", (jsonb::exists_all_keys(&b, ks.iter().map(|k| &k[..])), jsonb::exists_any_keys(&b, ks.iter().map(|k| &k[..])))) {
             let e = (ops::exists_all_keys(v, &ks), ops::exists_any_keys(v, &ks));
             if r != e {
@@ -574,7 +577,7 @@ pub fn spaces(tier: Tier) -> Vec<Space<'static>> {
 
 pub fn meta(tier: Tier) -> (String, serde_json::Value, Vec<String>) {
     (
-        "every document of the universes x every argument derived from it: indices 0..len+1; names = keys, case variants, prefixes, extensions, absent x ignore_case; every key path of length <= depth+1 over real indices (-len-2..len+1 and the i32 extremes), every key as Name and QuotedName, absent and wrong-kind steps; every subset of <=3 candidate keys incl. a non-UTF-8 key; all casts; keys/each/values/type; string traversal with a recording predicate and an equality predicate per string. Every returned sub-value must equal the model encoder's bytes for the model sub-tree and pass the strict validator. Non-trivial = container with a nested container or >=2 children of different payload widths.".into(),
+        "every document of the universes x every argument derived from it: indices 0..len+1; names = keys, case variants, prefixes, extensions, absent x ignore_case; every key path of length <= depth+1 over real indices (-len-2..len+1 and the i32 extremes), every key as Name and QuotedName, absent and wrong-kind steps; every list of <=3 candidate keys (any order, with repetitions) incl. a non-UTF-8 key; all casts; keys/each/values/type; string traversal with a recording predicate and an equality predicate per string. Every returned sub-value must equal the model encoder's bytes for the model sub-tree and pass the strict validator. Non-trivial = container with a nested container or >=2 children of different payload widths.".into(),
         json!({"universes": if tier.thorough() {"D2,D1q,case-variant objects,cast scalars,D2k,D1,D3"} else {"D2,D1q,case-variant objects,cast scalars"}}),
         vec!["string->number casts use Rust's std parse on both sides (the tree answer)".into()],
     )
